@@ -23,7 +23,11 @@ node reports read_only and every mutating operation is refused with an identical
 (unwrapped) dump before and after; with skel_only no revealing operation returns; with
 local_only every reached node's name lies at or below the start node, and ``file``,
 ``parent`` at the local root and absolute paths are refused; no step ever drops a flag.
-Oracle only (not modelled): what the public metadata listings hand out -- ``.node`` of the
+Metadata listings: the primitives ``meta_node node|file|parent`` (terminal) are compared with the
+model's PINNED rule nav_meta_pinned (the code hands out raw driver objects: recorded known
+finding, refuted by C15_pinned_meta_node_refuted / _lo_refuted); the DEMANDED rule nav_meta is
+what the closure theorems cover, and a step that follows it instead is reported in the notes.
+Oracle (code alone): what the public metadata listings hand out -- ``.node`` of the
 StoredMetadata items of ``meta.values()`` / ``meta.items()`` and its ``.file`` / ``.parent`` must lie
 at or below a local_only start node, and no mutation may succeed through them below a
 read_only start node (probe_meta; one canonical signature per escape, independent of driver,
@@ -44,12 +48,13 @@ SAC = "zsac"                # name of the sacrificial subtree (group + child dat
 # ---------------------------------------------------------------------------- the fixed container
 
 # (path, kind, carries SCHEMA)
+# (path, kind, carries SCHEMA, carries any metadata object)
 TREE0 = [
-    (["g"], "g", True),
-    (["g", "e"], "d", False),
-    (["top"], "d", False),
-    (["g", "h"], "g", False),
-    (["g", "h", "d"], "d", True),
+    (["g"], "g", True, True),
+    (["g", "e"], "d", False, False),
+    (["top"], "d", False, True),          # carries the permanent SCHEMA2 object
+    (["g", "h"], "g", False, False),
+    (["g", "h", "d"], "d", True, True),
 ]
 STARTS = {"container": ([], "g"), "group": (["g"], "g"), "dataset": (["g", "h", "d"], "d")}
 FLAGS = [(r, l, s) for r in (False, True) for l in (False, True) for s in (False, True)]
@@ -102,6 +107,9 @@ def _prims() -> List[list]:
         P.append(["query", t])
     for f in ((True, False, False), (False, True, False), (False, False, True)):
         P.append(["restrict", list(f)])
+    # terminal: what the public metadata listing hands out (compared with the model's PINNED rule)
+    for hop in ("node", "file", "parent"):
+        P.append(["meta_node", hop])
     return P
 
 
@@ -126,6 +134,7 @@ def _ops_for(kind: str, present: Dict[str, bool]) -> List[list]:
             O.append([name, False, ["zz"], False, ["zy"]])
             O.append([name, True, ["zz"], False, ["zy"]])
             O.append([name, False, ["zz"], True, ["zy"]])
+        O.append(["copy_nodes"])
         O.append(["contains", False, ["h"]])
         O.append(["contains", True, ["g"]])
         O.append(["listing"])
@@ -153,7 +162,7 @@ def _ops_for(kind: str, present: Dict[str, bool]) -> List[list]:
 
 def op_is_mutating(op) -> bool:
     t = op[0]
-    if t in ("grp", "move", "copy", "ds_write"):
+    if t in ("grp", "move", "copy", "copy_nodes", "ds_write"):
         return True
     if t == "ds_member":
         return op[1] in RO_FORBIDDEN
@@ -341,6 +350,23 @@ def _cached(cache: Optional[dict], key: str, fn):
     return v
 
 
+def meta_obs(obj) -> Tuple[List[str], str, Tuple[bool, bool, bool]]:
+    """Abstraction of an object handed out by a metadata listing: the path of the data node the
+    metadata path belongs to (paths of metadata objects / directories are identified with the
+    node they describe), its kind, and its flags (a raw object of the driver has none)."""
+    from metador_core.container.wrappers import MetadorNode
+    segs = [x for x in str(obj.name).split("/") if x]
+    for i, sg in enumerate(segs):
+        if sg.startswith("metador_meta_"):
+            suffix = sg[len("metador_meta_"):]
+            segs = segs[:i] + ([suffix] if suffix else [])
+            break
+    kind = "d" if hasattr(obj, "ndim") else "g"
+    if isinstance(obj, MetadorNode):
+        return (segs, kind, node_obs(obj)[2])
+    return (segs, kind, (False, False, False))
+
+
 def apply_prim(env: Env, node, prim, as_lookup: bool = False, cache: Optional[dict] = None):
     """-> ("O", node) | ("R", msg) | ("E", msg) | ("U", msg: a raw unwrapped node was returned)"""
     from metador_core.container.wrappers import MetadorNode
@@ -390,6 +416,16 @@ def apply_prim(env: Env, node, prim, as_lookup: bool = False, cache: Optional[di
             res = _cached(cache, "query", lambda: {x.name: x for x in node.metador.query(SCHEMA)}).get(_abs(prim[1]))
         elif t == "restrict":
             res = node.restrict(**flag_kwargs(prim[1]))
+        elif t == "meta_node":
+            objs = _cached(cache, "meta_values", lambda: list(node.meta.values()))
+            if not objs:
+                return ("E", "no metadata objects")
+            res = objs[0].node
+            if prim[1] == "file":
+                res = res.file
+            elif prim[1] == "parent":
+                res = res.parent
+            return ("O", res)      # raw or wrapped: observed with meta_obs
         else:
             raise RuntimeError(f"unknown primitive {prim}")
     except vlib.CaseTimeout:
@@ -514,6 +550,13 @@ def run_op(env: Env, sess: Session, node, op, check_state: bool = False, logical
                 node.move(pa, pb)
             else:
                 node.copy(pa, pb)
+        elif t == "copy_nodes":
+            fa, fb = base + "/zz", base + "/zy"
+            cleanup.append(lambda: (_raw_del(env, fa), _raw_del(env, fb)))
+            raw[fa] = 1
+            src = sess.U[fa]
+            mark()
+            node.copy(src, "zy")                 # a node object as the source argument
         elif t == "contains":
             _ = parg_str(op[1], op[2]) in node
         elif t == "listing":
@@ -876,6 +919,10 @@ def w_explore(task) -> Dict[str, Any]:
                             continue
                         if undo is not None:
                             state["baseline"] = None        # the tree has grown
+                        if prim[0] == "meta_node":
+                            segs, kind, acl = meta_obs(res)
+                            rec["fan"].append([idx, "O", segs, kind, list(acl), None, [], None])
+                            continue
                         segs, kind, acl = node_obs(res)
                         item: List[Any] = [idx, "O", segs, kind, list(acl)]
                         nchain = chain + [prim]
@@ -1128,7 +1175,7 @@ def run(ctx: vlib.Ctx):
 
     # ---- model: one nav case per explored node, one guard case per (driver, kind, flags)
     nav_cases, nav_index = [], []
-    tree_sx = [[p, k, m] for (p, k, m) in TREE0]
+    tree_sx = [[p, k, m, o] for (p, k, m, o) in TREE0]
     fan_all = [enc_prim(p) for p in PRIMS]
     for oi, o in enumerate(outs):
         driver, start, flags, sl = o["task"]
@@ -1220,11 +1267,24 @@ def run(ctx: vlib.Ctx):
         for item in rec["fan"]:
             idx, st = item[0], item[1]
             prim = PRIMS[idx]
-            m = decode_navres(fan[idx])
             evals += 1
             dist["steps"] += 1
             L = str(len(chain) + 1)
             dist["by_len"][L] = dist["by_len"].get(L, 0) + 1
+            if prim[0] == "meta_node":
+                # compared with the PINNED rule (known finding); the DEMANDED rule is what a repair must give
+                pinned, demanded = decode_navres(fan[idx][1]), decode_navres(fan[idx][2])
+                impl = (st,) if st != "O" else ("O", item[2], item[3], tuple(item[4]))
+                if impl == pinned:
+                    dist["meta_steps_pinned_rule"] = dist.get("meta_steps_pinned_rule", 0) + 1
+                elif impl == demanded:
+                    dist["meta_steps_demanded_rule"] = dist.get("meta_steps_demanded_rule", 0) + 1
+                else:
+                    note_dis({"kind": "meta-step", "driver": driver, "start": start, "flags": flags,
+                              "chain": chain + [prim], "model_pinned": list(pinned),
+                              "model_demanded": list(demanded), "impl": list(impl)})
+                continue
+            m = decode_navres(fan[idx])
             if st == "X":
                 note_dis({"kind": "replay", "driver": driver, "start": start, "flags": flags, "chain": chain + [prim]})
                 continue
@@ -1275,7 +1335,7 @@ def run(ctx: vlib.Ctx):
             if prev is None:
                 continue
             for item in rec["fan"]:
-                if item[1] != "O":
+                if item[1] != "O" or PRIMS[item[0]][0] == "meta_node":
                     continue
                 acl = item[4]
                 for i, nm in enumerate(FLAG_NAMES):
@@ -1364,6 +1424,11 @@ def run(ctx: vlib.Ctx):
         "state_drift_suites": sum(o["state_drift"] for o in outs),
         "explored_internal_nodes": len(nav_cases),
     }
+    if dist.get("meta_steps_demanded_rule"):
+        ctx.notes.append(
+            f"metadata listings follow the model's DEMANDED rule (nav_meta) on {dist['meta_steps_demanded_rule']} steps and "
+            f"the PINNED rule (nav_meta_pinned) on {dist.get('meta_steps_pinned_rule', 0)}: the known finding looks repaired -- "
+            "mark its known_findings.json entries fixed; C15_ro/lo/so_closed then cover this primitive on the code too")
     cov["coq_crosscheck"] = xc
     cov["disagreements"] = len(disagreements)
     cov["observations"] = observations()
@@ -1467,6 +1532,21 @@ def observations() -> List[str]:
                                f"{type(sm.node).__name__} {sm.node.name} (its .file/.parent are unrestricted raw objects)")
                 except Exception as e:  # noqa: BLE001
                     obs.append(f"meta.values(): {type(e).__name__}")
+                try:
+                    env.raw["g/zq"] = 1
+                    lo_g = Session(env, "group", (False, True, False)).node
+                    before = "zq2" in env.raw["g"]
+                    try:
+                        lo_g.copy(sess.U["g/zq"], lo_g, name="zq2")
+                        outcome = "succeeded"
+                    except Exception as e:  # noqa: BLE001
+                        outcome = f"raised {type(e).__name__}: {e}"[:110]
+                    after = "zq2" in env.raw["g"]
+                    obs.append("copy(source node, DESTINATION GROUP OBJECT) on a local_only (not read_only) group "
+                               f"{outcome}; /g/zq2 exists before={before} after={after} (the raw copy is done before "
+                               "`self[dst_path]` is looked up with an absolute path)")
+                except Exception as e:  # noqa: BLE001
+                    obs.append(f"copy with destination object probe: {type(e).__name__}: {e}"[:160])
                 try:
                     sess2.node.metador.source
                     obs.append("node.metador (TOC interface) of a restricted node exposes source / driver / schemas of the container")
